@@ -8,30 +8,45 @@
 
 struct verif_heap_ghost __verif_h;
 
-/* C14.heap.release.<kind>: vm_release against its contract; the recursive calls inside release_* are replaced by the same
- * contract (--enforce-contract-rec); lvl = 2: the argument is the object under proof */
+#ifndef HEAP_VIEW_CHILD
+/* C14.heap.release.<kind>: vm_release against its contract; the call of the kind's release_* helper is replaced by the
+ * helper's contract (proved by C14.heap.helper.<kind>) */
 void h_release(void)
 {
     VmHeap *heap; NanoValue v;
-    __verif_h.lvl = 2;
 #if VERIF_HKIND != 0
     v.tag = VERIF_HKIND;     /* a constant for symbolic execution: the arms of the other kinds are pruned */
 #endif
+    _Bool null_obj = (v.as.obj == NULL);
     unsigned kc0 = __verif_h.kid_calls;
     vm_release(heap, v);
 #if VERIF_HKIND != 0
-    VERIF_COVER(__verif_rc0 == 1);
-    VERIF_COVER(__verif_rc0 >= 2);
-    VERIF_COVER(__verif_rc0 == 0);
+    VERIF_COVER(!null_obj && __verif_rc0 == 1);
+    VERIF_COVER(!null_obj && __verif_rc0 >= 2);
+    VERIF_COVER(!null_obj && __verif_rc0 == 0);
+    VERIF_COVER(null_obj);
+#else
+    VERIF_COVER(!IS_RC_TAG(v.tag));
 #endif
 #if VERIF_HKIND == 7 || VERIF_HKIND == 8 || VERIF_HKIND == 10 || VERIF_HKIND == 12 || VERIF_HKIND == 11
     VERIF_COVER(__verif_h.kid_calls == kc0 + 1 && __verif_hk > 2);
 #endif
-#if VERIF_HKIND == 0
-    VERIF_COVER(!IS_RC_TAG(v.tag));
-    VERIF_COVER(IS_RC_TAG(v.tag));
+}
+#else
+/* C14.heap.helper.<kind>: release_<kind> against its contract; the recursive vm_release calls in its loop are replaced by
+ * the child view of vm_release's contract; loop contract from contracts/loops/heap.c.loops */
+void h_helper(void)
+{
+    VmHeap *heap; REL_T *p;
+    unsigned kc0 = __verif_h.kid_calls;
+    REL_FN(heap, p);
+    VERIF_COVER(__verif_h.kid_calls == kc0 + 1 && __verif_hk > 2);
+    VERIF_COVER(__verif_h.kid_calls == kc0 && __verif_hkidrc == 0);
+#if VERIF_HKIND == 8 || VERIF_HKIND == 10
+    VERIF_COVER(__verif_hstn == 0);
 #endif
 }
+#endif
 
 void h_retain(void)
 {
@@ -41,3 +56,19 @@ void h_retain(void)
     VERIF_COVER(!IS_RC_TAG(v.tag));
     VERIF_COVER(IS_RC_TAG(v.tag) && v.as.obj == NULL);
 }
+
+#ifndef HEAP_VIEW_CHILD
+/* C14.heap.arr.* / C14.heap.new.*: one enforced function each; covers look at return values and ghosts only.
+ * Value arguments are built field by field from a zeroed struct (an uninitialised union local gives CBMC unrelated
+ * symbols for the union and its members). */
+void h_arr_get(void) { VmArray *a; uint32_t index; NanoValue r = vm_array_get(a, index); VERIF_COVER(r.tag == TAG_VOID); VERIF_COVER(r.tag == TAG_STRING && index > 5); }
+void h_arr_set(void) { VmArray *a; uint32_t index; NanoValue v = {0}; v.tag = nondet_u8(); v.as.i64 = nondet_i64(); vm_array_set(a, index, v); VERIF_COVER(__verif_hk > 3 && __verif_hk < index); VERIF_COVER(index == 0); }
+void h_arr_pop(void) { VmArray *a; NanoValue r = vm_array_pop(a); VERIF_COVER(r.tag == TAG_VOID); VERIF_COVER(r.tag == TAG_ARRAY); }
+void h_arr_remove(void) { VmArray *a; uint32_t index; vm_array_remove(a, index); VERIF_COVER(index == 0 && __verif_hk == 2); VERIF_COVER(index > 4 && __verif_hk > index); VERIF_COVER(index > 4 && __verif_hk < index); }
+void h_arr_push(void) { VmArray *a; NanoValue v = {0}; v.tag = nondet_u8(); v.as.i64 = nondet_i64(); vm_array_push(a, v); VERIF_COVER(IS_RC_TAG(v.tag) && __verif_rc0 == 7); VERIF_COVER(!IS_RC_TAG(v.tag) && __verif_hk == 9); }
+void h_arr_new(void) { VmHeap *heap; uint8_t et; uint32_t cap; VmArray *r = vm_array_new(heap, et, cap); VERIF_COVER(r->capacity == 8); VERIF_COVER(r->capacity > 1000 && __verif_hk == 999); }
+void h_struct_new(void) { VmHeap *heap; uint32_t d, n; VmStruct *r = vm_struct_new(heap, d, n); VERIF_COVER(r->field_count == 0); VERIF_COVER(r->field_count > 1000 && __verif_hk == 999); }
+void h_union_new(void) { VmHeap *heap; uint32_t d; uint16_t va, n; VmUnion *r = vm_union_new(heap, d, va, n); VERIF_COVER(r->field_count == 0); VERIF_COVER(r->field_count > 1000 && __verif_hk == 999); }
+void h_tuple_new(void) { VmHeap *heap; uint32_t n; VmTuple *r = vm_tuple_new(heap, n); VERIF_COVER(r->count == 0); VERIF_COVER(r->count > 1000 && __verif_hk == 999); }
+void h_closure_new(void) { VmHeap *heap; uint32_t f; uint16_t n; VmClosure *r = vm_closure_new(heap, f, n); VERIF_COVER(r->capture_count == 0); VERIF_COVER(r->capture_count > 1000 && __verif_hk == 999); }
+#endif
